@@ -695,16 +695,41 @@ def check_bounds(rep, tier, seed):
     finish_corr(rep, "C15", cases, first, rust, lean)
     # self-play of unbounded length: must stop by itself below the stack capacity
     t0 = time.time()
-    try:
-        p = subprocess.run([core.ENGINE, "auto", "1"], capture_output=True, text=True, timeout=180 if tier == "quick" else 900)
+    import concurrent.futures as cf
+
+    def selfplay(ms):
+        try:
+            return ms, subprocess.run([core.ENGINE, "auto", str(ms)], capture_output=True, text=True, timeout=300 if tier == "quick" else 1200)
+        except subprocess.TimeoutExpired:
+            return ms, None
+    games = [0, 1, 2, 3] if tier == "quick" else [0, 0, 1, 1, 2, 3, 5, 8, 13, 20]
+    with cf.ThreadPoolExecutor(max_workers=len(games)) as ex:
+        played = list(ex.map(selfplay, games))
+    q = []
+    for ms, p in played:
+        replay = ["rustybait auto %d" % ms]
+        if p is None:
+            rep.violation("impl-vs-spec", "self-play did not end within the time limit", "", replay_ops=replay, no_input=True)
+            continue
         plies = p.stdout.count("Hash: ")
-        stats["selfplay_positions_printed"] = plies
+        stats["selfplay_games"] += 1
+        stats["selfplay_positions_printed_max"] = max(stats["selfplay_positions_printed_max"], plies)
+        if plies >= 399:
+            stats["selfplay_games_ended_by_the_guard"] += 1
         if p.returncode != 0 or "panicked" in p.stderr:
-            rep.violation("impl-vs-spec", f"self-play ended abnormally after {plies} positions", p.stderr[-600:], replay_ops=["rustybait auto 1"])
+            rep.violation("impl-vs-spec", f"self-play ended abnormally after {plies} positions", p.stderr[-600:], replay_ops=replay)
         if plies > 401:
-            rep.violation("impl-vs-spec", f"self-play ran to {plies} positions: no length guard", "", replay_ops=["rustybait auto 1"])
-    except subprocess.TimeoutExpired:
-        rep.violation("impl-vs-spec", "self-play did not end within the time limit", "", replay_ops=["rustybait auto 1"], no_input=True)
+            rep.violation("impl-vs-spec", f"self-play ran to {plies} positions: no length guard", "", replay_ops=replay)
+        # the game it played is a legal game: every printed position is a legal successor (by the rules) of the one before
+        fens = [core.fen4(l[5:]) for l in p.stdout.split("\n") if l.startswith("Fen: ")]
+        q += [("spec_succ %s | %s" % (a, b), a, b, replay) for a, b in zip(fens, fens[1:])]
+    ans = spec_queries([x[0] for x in q])
+    stats["selfplay_steps_checked"] = len(q)
+    for line, a, b, replay in q:
+        got = ans.get(line) or ""
+        if not got.split(" ")[0].isdigit() or int(got.split(" ")[0]) < 1:
+            rep.violation("impl-vs-spec", f"self-play: position {b} is not a legal successor of {a}", got, replay_ops=replay)
+            break
     stats["selfplay_wall_s"] = int(time.time() - t0)
     stats["cases"] = len(cases)
     return stats, kinds, cases
